@@ -120,6 +120,7 @@ type Engine struct {
 	usedPure, usedModels, usedContracts, unmodelled map[string]bool
 	ginfo map[*ssa.Global]*gInfo
 	lockedOnce, freshObjs map[string]bool
+	lockSnap              map[string]*State // state right after the last acquisition of a lock (lockrely guarantee)
 	levels map[[2]string]bool
 	siteOrd, siteHit map[string]int
 	curBlock *ssa.BasicBlock
